@@ -15,7 +15,7 @@ from typing import TYPE_CHECKING, Any
 from colorama import Fore, Style
 
 from _griffe.enumerations import BreakageKind, ExplanationStyle, ParameterKind
-from _griffe.exceptions import AliasResolutionError
+from _griffe.exceptions import AliasResolutionError, CyclicAliasError
 from _griffe.git import _WORKTREE_PREFIX
 from _griffe.logger import logger
 
@@ -516,7 +516,7 @@ def _alias_incompatibilities(
     try:
         old_member = old_obj.target if old_obj.is_alias else old_obj  # type: ignore[union-attr]
         new_member = new_obj.target if new_obj.is_alias else new_obj  # type: ignore[union-attr]
-    except AliasResolutionError:
+    except (AliasResolutionError, CyclicAliasError):
         logger.debug("API check: %s | %s: skip alias with unknown target", old_obj.path, new_obj.path)
         return
 
